@@ -776,7 +776,11 @@ func genSizes(rng *Rng) Sx {
 
 func gen(a Args, out *Out) {
 	rng := NewRng(a.Seed)
-	emit := func(kind string, in Sx) { out.Case(kind, true, in, run(in)) }
+	emit := func(kind string, in Sx) {
+		if Focus(kind) {
+			out.Case(kind, true, in, run(in))
+		}
+	}
 	thorough := a.Thorough()
 
 	// 1. every value of the length field.  V1 and the length-prefixed helper: all 65536 values in
